@@ -3,6 +3,7 @@ package c12
 
 import (
 	"bytes"
+	"crypto/sha256"
 	"fmt"
 	"testing"
 
@@ -21,7 +22,7 @@ func TestMain(m *testing.M) {
 		Property: "C12", Level: "exploration",
 		Rule: "rapid draws a source trie (0..20 keys over prefix-sharing 32-byte keys; root shape forced across branch / shared-prefix short node / single entry / empty; in memory, committed at a drawn collapse level, or reloaded from storage), a requested key set of size 0..25 (present keys, absent keys diverging at every depth, duplicates; both sides of the >10 parallel-collection threshold), and a follow-up sequence of updates, deletes and inserts restricted to requested keys, mirrored on the source and on the trie rebuilt from the export. " +
 			"Oracle: Deserialize(GetPath(keys)) succeeds on a fresh storage-less trie; Root()/Weight() equal the source's and the independent reference's; after each mirrored operation both tries report the same success/failure and equal Root()/Weight(), which equal the reference for the updated model. " +
-			"Non-trivial = >=11 requested keys on a non-branch root, or a delete of a requested key whose sibling was exported as an embedded short node or a hash reference, or an absent requested key inserted later; distinct = distinct (content, request, follow-ups).",
+			"A separate large case exports every key of a 68 000-key trie (more than 2^17 exported nodes), 3000 and 9 keys of it, imports each and mirrors an update. The source is sometimes taken through value and weight-only updates after its hashes were computed. Non-trivial = >=11 requested keys on a non-branch root, or a delete of a requested key whose sibling was exported as an embedded short node or a hash reference, or an absent requested key inserted later; distinct = distinct (content, request, follow-ups).",
 		Assumptions: []string{"the source is exported only in a clean state (GetPath reads hashes, which clears dirty flags)", "storage is internal/memkv"},
 	})
 	ev.Main(m)
@@ -261,4 +262,57 @@ func TestWitnesses(t *testing.T) {
 func TestPartialTrie(t *testing.T) {
 	ev.Rapid(t, 1500, 20000)
 	rapid.Check(t, run)
+}
+
+// "Any number of requested keys": an export of more than 2^17 nodes (the default element limit of the CBOR library
+// used for the export) must still rebuild, with every key requested and with small requests on the same big trie, and
+// the same update applied to source and partial trie keeps them equal.
+func TestLargeExport(t *testing.T) {
+	ev.Guard(t, "TestLargeExport", func() {
+		salt := ev.SeedFor("TestLargeExport")
+		nkeys := 68000 + int(salt%977)
+		if ev.Thorough() {
+			nkeys += 30000
+		}
+		src := wmpt.New(nil, nil)
+		keys := make([][]byte, nkeys)
+		var total uint64
+		weight := map[string]uint64{}
+		for i := range keys {
+			h := sha256.Sum256([]byte(fmt.Sprintf("large/%d/%d", salt, i)))
+			keys[i] = h[:]
+			w := uint64(1 + i%5)
+			if err := src.Update(keys[i], []byte(fmt.Sprintf("v%d", i)), w); err != nil {
+				t.Fatalf("HARNESS: %v", err)
+			}
+			weight[string(keys[i])] = w
+			total += w
+		}
+		for round, req := range [][][]byte{keys, keys[:3000], keys[:9]} {
+			root := append([]byte(nil), src.Root()...)
+			data, err := src.GetPath(req)
+			if err != nil {
+				t.Fatalf("GetPath of %d keys on a trie of %d: %v", len(req), nkeys, err)
+			}
+			part := wmpt.New(nil, nil)
+			if err := part.Deserialize(data); err != nil {
+				t.Fatalf("the export of %d requested keys of a trie with %d keys (%d bytes) cannot be imported: %v", len(req), nkeys, len(data), err)
+			}
+			if !bytes.Equal(part.Root(), root) || part.Weight() != total {
+				t.Fatalf("export of %d keys of %d: partial trie root %x weight %d, source %x weight %d", len(req), nkeys, part.Root(), part.Weight(), root, total)
+			}
+			k := req[len(req)/2]
+			val := []byte(fmt.Sprintf("changed-%d", round))
+			errP, errS := part.Update(k, val, 9), src.Update(k, val, 9)
+			if errP != nil || errS != nil {
+				t.Fatalf("export of %d keys of %d: update of a requested key: partial trie %v, source %v", len(req), nkeys, errP, errS)
+			}
+			total += 9 - weight[string(k)]
+			weight[string(k)] = 9
+			if !bytes.Equal(part.Root(), src.Root()) || part.Weight() != total || src.Weight() != total {
+				t.Fatalf("export of %d keys of %d: after the same update partial trie root %x weight %d, source %x weight %d, expected weight %d", len(req), nkeys, part.Root(), part.Weight(), src.Root(), src.Weight(), total)
+			}
+			ev.Case(fmt.Sprintf("large-export %d of %d", len(req), nkeys), len(req) > 65536, "large-export", fmt.Sprintf("requested:%d", len(req)))
+		}
+	})
 }
